@@ -624,8 +624,67 @@ def r08_4(ctx):
     return r
 
 
+CLIPPY_LINTS = ["unwrap_used", "expect_used", "indexing_slicing", "panic", "unreachable", "arithmetic_side_effects", "iter_over_hash_type", "string_slice"]
+
+
+def clippy_crosscheck(ctx):
+    """second opinion (thorough): every site clippy's restriction lints report must be in the MIR inventory"""
+    import subprocess
+    from .. import extract
+    r = Rule("R08.X", "cross-check: sites reported by clippy's restriction lints (unwrap/expect/indexing/panic/unreachable/arithmetic/hash iteration) are all in the MIR inventory",
+             "an inventory that misses a site clippy sees is incomplete")
+    env = dict(os.environ, CARGO_TARGET_DIR=os.path.join(extract.CACHE, "clippy-target"), CARGO_NET_OFFLINE="true")
+    cmd = ["cargo", "+nightly", "clippy", "--offline", "--workspace", "--message-format=json", "--", "-A", "clippy::all"]
+    for l in CLIPPY_LINTS:
+        cmd += ["-W", "clippy::" + l]
+    # clippy must actually re-lint the members
+    import glob, shutil
+    for m in extract.MEMBERS:
+        for d in glob.glob(os.path.join(env["CARGO_TARGET_DIR"], "debug", ".fingerprint", m + "-*")):
+            shutil.rmtree(d, ignore_errors=True)
+    pr = subprocess.run(cmd, cwd=extract.REPO, env=env, capture_output=True, text=True)
+    if pr.returncode != 0:
+        r.ob("clippy ran", False, "-", "cargo clippy failed: " + pr.stderr[-400:])
+        return r
+    csites = []
+    for line in pr.stdout.splitlines():
+        try:
+            d = json.loads(line)
+        except ValueError:
+            continue
+        if d.get("reason") != "compiler-message":
+            continue
+        m = d["message"]
+        code = (m.get("code") or {}).get("code") or ""
+        if code.startswith("clippy::") and code[8:] in CLIPPY_LINTS:
+            sp = [x for x in m["spans"] if x["is_primary"]]
+            if sp:
+                csites.append((code[8:], sp[0]["file_name"], sp[0]["line_start"], sp[0]["line_end"]))
+    inv = {}
+    for site in panic_sites(ctx):
+        f = site["body"].get("file", "?")
+        sp = site.get("sp") or [0, 0, 0, 0]
+        inv.setdefault(f, []).append((sp[0], sp[2], site))
+    for code, f, l0, l1 in sorted(set(csites)):
+        hit = [s for (a, b, s) in inv.get(f, []) if not (b < l0 or a > l1)]
+        r.ob("clippy::%s at %s:%d is in the inventory" % (code, f, l0), bool(hit), "%s:%d" % (f, l0),
+             "inventory site: %s" % site_key(hit[0]) if hit else "clippy reports a panic-capable construct here that the MIR inventory does not contain")
+    r.ob("clippy produced diagnostics to compare", len(csites) > 0, "-", "%d clippy site(s), %d inventory site(s)" % (len(set(csites)), sum(len(v) for v in inv.values())))
+    return r
+
+
 def rules(ctx):
-    return [r08_1, r08_2, r08_3, r08_4]
+    out = [r08_1, r08_2, r08_3, r08_4]
+    if ctx.tier == "thorough":
+        from . import controls
+        out.append(controls.control_rule([
+            ("R08.1", r08_1, ["panic_sites"]),
+            ("R08.2", r08_2, ["no_progress"]),
+            ("R08.3", r08_3, ["hash_map_iteration", "hash_set_into_iter", "clock", "environment", "address", "COUNTER"]),
+            ("R08.4", r08_4, ["spin"]),
+        ]))
+        out.append(clippy_crosscheck)
+    return out
 
 
 EXPLANATION = (
